@@ -32,6 +32,8 @@ struct Ph {
     filesz: u64,
     memsz: u64,
     bytes: Vec<u8>,
+    paddr: u64,
+    align: u64,
 }
 
 #[derive(Clone, Debug, Default)]
@@ -115,7 +117,7 @@ impl Obj {
             self.entry
         )];
         for p in &self.phs {
-            v.push(format!("ph {} {} {} {} {} {} {}", p.ptype, p.flags, p.off, p.vaddr, p.filesz, p.memsz, hex(&p.bytes)));
+            v.push(format!("ph {} {} {} {} {} {} {} {} {}", p.ptype, p.flags, p.off, p.vaddr, p.paddr, p.filesz, p.memsz, p.align, hex(&p.bytes)));
         }
         let sy = |k: &str, s: &Sym| format!("{} {} {} {} {} {} {}", k, show_name(&s.name), s.value, s.size, s.info, s.other, s.shndx);
         for s in &self.syms {
@@ -319,14 +321,18 @@ fn write_file(o: &Obj) -> Vec<u8> {
             if p.flags & 1 != 0 {
                 fl |= 4;
             }
+            // the section covers only a part of its segment: sh_addr / sh_offset / sh_size differ from the
+            // program header's fields (the image is defined by the program headers, not by the sections)
             let nobits = p.filesz == 0;
+            let extent = if nobits { p.memsz } else { p.filesz };
+            let delta = if extent >= 2 { 1 + extent / 3 } else { 0 };
             shs.push(Sh {
                 name: format!(".seg{}", k),
                 stype: if nobits { 8 } else { 1 },
                 flags: fl,
-                addr: p.vaddr,
-                off: p.off,
-                size: if nobits { p.memsz } else { p.filesz },
+                addr: p.vaddr + delta,
+                off: p.off + delta,
+                size: extent - delta,
                 link: 0,
                 info: 0,
                 align: 1,
@@ -427,20 +433,20 @@ fn write_file(o: &Obj) -> Vec<u8> {
     h.u16(shs.len() as u16 - 1);
     debug_assert_eq!(h.b.len(), ehsize);
     for p in &o.phs {
-        let align: u64 = if p.ptype == PT_LOAD && p.off % 4096 == p.vaddr % 4096 { 4096 } else { 1 };
+        let align = p.align;
         h.u32(p.ptype);
         if c64 {
             h.u32(p.flags);
             h.u64(p.off);
             h.u64(p.vaddr);
-            h.u64(p.vaddr);
+            h.u64(p.paddr);
             h.u64(p.filesz);
             h.u64(p.memsz);
             h.u64(align);
         } else {
             h.u32(p.off as u32);
             h.u32(p.vaddr as u32);
-            h.u32(p.vaddr as u32);
+            h.u32(p.paddr as u32);
             h.u32(p.filesz as u32);
             h.u32(p.memsz as u32);
             h.u32(p.flags);
@@ -585,8 +591,8 @@ fn declare(st: &mut St, t: &[&str]) -> Option<()> {
             };
             st.objs.push(Obj { name: name.to_string(), c64, le, machine: m.parse().ok()?, etype: ty.parse().ok()?, entry: e.parse().ok()?, ..Default::default() });
         }
-        ["ph", ty, f, o, v, fs, ms, hx] => {
-            let p = Ph { ptype: ty.parse().ok()?, flags: f.parse().ok()?, off: o.parse().ok()?, vaddr: v.parse().ok()?, filesz: fs.parse().ok()?, memsz: ms.parse().ok()?, bytes: unhex(hx)? };
+        ["ph", ty, f, o, v, pa, fs, ms, al, hx] => {
+            let p = Ph { ptype: ty.parse().ok()?, flags: f.parse().ok()?, off: o.parse().ok()?, vaddr: v.parse().ok()?, filesz: fs.parse().ok()?, memsz: ms.parse().ok()?, bytes: unhex(hx)?, paddr: pa.parse().ok()?, align: al.parse().ok()? };
             st.objs.last_mut()?.phs.push(p);
         }
         ["sym", rest @ ..] if rest.len() == 6 => {
@@ -715,10 +721,10 @@ fn goblin_differs(e: &Elf, o: &Obj, file: &[u8]) -> Option<String> {
         return Some("phnum".into());
     }
     for (i, (gp, p)) in g.program_headers.iter().zip(&o.phs).enumerate() {
-        if gp.p_type != p.ptype || gp.p_flags != p.flags || gp.p_offset != p.off || gp.p_vaddr != p.vaddr || gp.p_filesz != p.filesz || gp.p_memsz != p.memsz {
+        if gp.p_type != p.ptype || gp.p_flags != p.flags || gp.p_offset != p.off || gp.p_vaddr != p.vaddr || gp.p_paddr != p.paddr || gp.p_align != p.align || gp.p_filesz != p.filesz || gp.p_memsz != p.memsz {
             return Some(format!("ph{}", i));
         }
-        if p.ptype == PT_LOAD {
+        if p.ptype == PT_LOAD || !p.bytes.is_empty() {
             let r = file.get(p.off as usize..(p.off + p.filesz) as usize);
             if r != Some(&p.bytes[..]) {
                 return Some(format!("ph{}-bytes", i));
@@ -947,7 +953,7 @@ fn place(rng: &mut Rng, plans: &[SegPlan], mut off: u64, mut vaddr: u64, tight: 
             1 => vaddr + 1 + rng.below(40),
             _ => ((vaddr + 4095) & !4095) + (off % 4096),              // next page, congruent with the offset
         };
-        v.push(Ph { ptype: PT_LOAD, flags: p.flags, off, vaddr: va, filesz: p.filesz, memsz: p.memsz, bytes: rand_bytes(rng, p.filesz) });
+        v.push(Ph { ptype: PT_LOAD, flags: p.flags, off, vaddr: va, filesz: p.filesz, memsz: p.memsz, bytes: rand_bytes(rng, p.filesz), paddr: va, align: 1 });
         off += p.filesz;
         vaddr = va + p.memsz;
     }
@@ -1007,8 +1013,16 @@ fn rand_sym(rng: &mut Rng, o: &Obj, pool: &[Sym]) -> Sym {
     Sym { name, value, size: *rng.pick(&[0u64, 0, 4, 8, 37]), info: (bind << 4) | stype, other: *rng.pick(&[0u8, 0, 0, 2]), shndx }
 }
 
+/// Program headers that are NOT loadable, mixed into the table: some describe a part of a loadable segment
+/// (TLS with a larger memory size, RELRO, EH_FRAME, SHLIB), some have their own file bytes and their own
+/// virtual address outside every loadable range (NOTE, INTERP), GNU_STACK carries an address and a size.
+/// None of them may show up in the image.
 fn extra_phdrs(rng: &mut Rng, o: &Obj, n: usize) -> Vec<Ph> {
-    let mut v = Vec::new();
+    let mut v: Vec<Ph> = Vec::new();
+    let mut file_end = o.phs.iter().map(|p| p.off + p.bytes.len() as u64).max().unwrap_or(0);
+    let va_end = loads(o).iter().map(|(_, p)| p.vaddr + p.memsz).max().unwrap_or(0);
+    let mut free_va = ((va_end + 0xffff) & !0xfff) + 0x1_0000;
+    let word = |le: bool, x: u32| if le { x.to_le_bytes() } else { x.to_be_bytes() };
     for _ in 0..n {
         let ls = loads(o);
         let host = ls[rng.below(ls.len() as u64) as usize].1;
@@ -1017,29 +1031,96 @@ fn extra_phdrs(rng: &mut Rng, o: &Obj, n: usize) -> Vec<Ph> {
             let st = if host.filesz == 0 { 0 } else { rng.below(host.filesz - fs + 1) };
             (host.off + st, host.vaddr + st, fs, if bigger { fs + rng.below(64) } else { fs })
         };
-        let p = match rng.below(5) {
-            0 => Ph { ptype: 0x6474_e551, flags: *rng.pick(&[6u32, 7]), ..Default::default() },
+        let own = |file_end: &mut u64, free_va: &mut u64, ptype: u32, bytes: Vec<u8>, extra_mem: u64| {
+            let off = (*file_end + 3) & !3;
+            let va = *free_va + off % 4096;
+            *file_end = off + bytes.len() as u64;
+            *free_va += 0x2000;
+            let len = bytes.len() as u64;
+            Ph { ptype, flags: 4, off, vaddr: va, filesz: len, memsz: len + extra_mem, bytes, paddr: va, align: 4 }
+        };
+        let p = match rng.below(8) {
+            0 => {
+                // GNU_STACK with an address and a size of its own
+                let va = free_va;
+                free_va += 0x2000;
+                Ph { ptype: 0x6474_e551, flags: *rng.pick(&[6u32, 7]), vaddr: if rng.chance(1, 2) { va } else { 0 }, memsz: *rng.pick(&[0u64, 0x1000, 64]), align: 16, ..Default::default() }
+            }
             1 => {
-                // PT_SHLIB (readelf would parse the contents of a PT_NOTE)
                 let (off, va, fs, ms) = sub(rng, false);
-                Ph { ptype: 5, flags: 4, off, vaddr: va, filesz: fs, memsz: ms, bytes: vec![] }
+                Ph { ptype: 5, flags: 4, off, vaddr: va, filesz: fs, memsz: ms, bytes: vec![], paddr: va, align: 1 }
             }
             2 => {
                 let (off, va, fs, ms) = sub(rng, true);
-                Ph { ptype: 7, flags: 4, off, vaddr: va, filesz: fs, memsz: ms, bytes: vec![] }
+                Ph { ptype: 7, flags: 4, off, vaddr: va, filesz: fs, memsz: ms, bytes: vec![], paddr: va, align: 8 }
             }
             3 => {
                 let (off, va, fs, ms) = sub(rng, false);
-                Ph { ptype: 0x6474_e552, flags: 4, off, vaddr: va, filesz: fs, memsz: ms, bytes: vec![] }
+                Ph { ptype: 0x6474_e552, flags: 4, off, vaddr: va, filesz: fs, memsz: ms, bytes: vec![], paddr: va, align: 1 }
+            }
+            4 => {
+                let (off, va, fs, ms) = sub(rng, false);
+                Ph { ptype: 0x6474_e550, flags: 4, off, vaddr: va, filesz: fs, memsz: ms, bytes: vec![], paddr: va, align: 4 }
+            }
+            5 | 6 => {
+                // PT_NOTE with a well-formed note of its own: name "GNU", 4 bytes of description
+                let mut b = Vec::new();
+                b.extend_from_slice(&word(o.le, 4));
+                b.extend_from_slice(&word(o.le, 4));
+                b.extend_from_slice(&word(o.le, 0x100 + rng.below(16) as u32));
+                b.extend_from_slice(b"GNU\0");
+                b.extend_from_slice(&word(o.le, rng.below(1 << 32) as u32));
+                own(&mut file_end, &mut free_va, 4, b, 0)
             }
             _ => {
-                let (off, va, fs, ms) = sub(rng, false);
-                Ph { ptype: 0x6474_e550, flags: 4, off, vaddr: va, filesz: fs, memsz: ms, bytes: vec![] }
+                if v.iter().any(|p: &Ph| p.ptype == 3) {
+                    let (off, va, fs, ms) = sub(rng, false);
+                    Ph { ptype: 5, flags: 4, off, vaddr: va, filesz: fs, memsz: ms, bytes: vec![], paddr: va, align: 1 }
+                } else {
+                    let path = *rng.pick(&["/lib/ld.so.1", "/lib64/ld-linux-x86-64.so.2", "/x"]);
+                    let mut b = path.as_bytes().to_vec();
+                    b.push(0);
+                    own(&mut file_end, &mut free_va, 3, b, 0)
+                }
             }
         };
         v.push(p);
     }
     v
+}
+
+/// p_paddr and p_align are drawn independently of the fields the loader must use: p_paddr equals p_vaddr in about
+/// a third of the headers, otherwise it is a page-aligned address far away from every virtual range of the object
+fn scramble_paddr_align(rng: &mut Rng, o: &mut Obj) {
+    let vmin = o.phs.iter().map(|p| p.vaddr).min().unwrap_or(0);
+    let vmax = o.phs.iter().map(|p| p.vaddr + p.memsz).max().unwrap_or(0);
+    let cands: Vec<u64> = [0x3000_0000u64, 0x7000_0000, 0x0200_0000, 0x5000_0000]
+        .iter()
+        .cloned()
+        .filter(|c| c + 0x0100_0000 < vmin || *c > vmax + 0x0100_0000)
+        .collect();
+    for (k, p) in o.phs.iter_mut().enumerate() {
+        if p.ptype == 0x6474_e551 && p.vaddr == 0 && p.memsz == 0 {
+            continue;
+        }
+        if !rng.chance(1, 3) && !cands.is_empty() {
+            p.paddr = *rng.pick(&cands) + 0x1_0000 * k as u64;
+        } else {
+            p.paddr = p.vaddr;
+        }
+        if p.ptype == 4 {
+            continue; // readelf insists on p_align 4 or 8 for notes
+        }
+        let congruent = p.off % 4096 == p.vaddr % 4096;
+        p.align = match rng.below(6) {
+            0 => 0,
+            1 => 1,
+            2 => *rng.pick(&[4u64, 8, 16, 64]),
+            3 if congruent => 0x1000,
+            4 if p.off % 0x1_0000 == p.vaddr % 0x1_0000 => 0x1_0000,
+            _ => *rng.pick(&[1u64, 2, 0x20]),
+        };
+    }
 }
 
 /// appends the dynamic segment (one more PT_LOAD) and the PT_DYNAMIC header; relocation sites and GOT
@@ -1066,8 +1147,8 @@ fn add_dynamic(
     debug_assert_eq!(got_at, got2);
     let extra = *rng.pick(&[0u64, 0, 8, 40]);
     let len = bytes.len() as u64;
-    o.phs.push(Ph { ptype: PT_LOAD, flags: 6, off, vaddr, filesz: len, memsz: len + extra, bytes });
-    o.phs.push(Ph { ptype: PT_DYNAMIC, flags: 6, off: off + doff, vaddr: vaddr + doff, filesz: dsize, memsz: dsize, bytes: vec![] });
+    o.phs.push(Ph { ptype: PT_LOAD, flags: 6, off, vaddr, filesz: len, memsz: len + extra, bytes, paddr: vaddr, align: 1 });
+    o.phs.push(Ph { ptype: PT_DYNAMIC, flags: 6, off: off + doff, vaddr: vaddr + doff, filesz: dsize, memsz: dsize, bytes: vec![], paddr: vaddr + doff, align: 1 });
 }
 
 fn plt_type(a: &ArchSel) -> (u32, bool) {
@@ -1098,7 +1179,6 @@ fn gen_single(rng: &mut Rng, a: &ArchSel) -> (Obj, Vec<u64>, String) {
     let plans: Vec<SegPlan> = (0..nload).map(|_| rand_seg(rng)).collect();
     o.phs = place(rng, &plans, headers_end(a.c64, nph), base, false);
     let bss = o.phs.iter().any(|p| p.memsz > p.filesz);
-    let ex = extra_phdrs(rng, &o, nextra);
     // symbols
     let mut pool: Vec<Sym> = Vec::new();
     for _ in 0..rng.below(8) {
@@ -1160,7 +1240,7 @@ fn gen_single(rng: &mut Rng, a: &ArchSel) -> (Obj, Vec<u64>, String) {
         });
     }
     // the other program headers go anywhere in the table
-    for p in ex {
+    for p in extra_phdrs(rng, &o, nextra) {
         let at = rng.below(o.phs.len() as u64 + 1) as usize;
         o.phs.insert(at, p);
     }
@@ -1170,6 +1250,7 @@ fn gen_single(rng: &mut Rng, a: &ArchSel) -> (Obj, Vec<u64>, String) {
         o.phs.swap(0, n - 1);
     }
     debug_assert_eq!(o.phs.len(), nph);
+    scramble_paddr_align(rng, &mut o);
     let nl = loads(&o).len();
     let tags = format!(
         "seg{}{}{}{}{}",
@@ -1399,6 +1480,7 @@ fn gen_link(rng: &mut Rng, a: &ArchSel, sibling: bool) -> LinkCase {
                 (0..ngot).map(|_| (text.vaddr + rng.below(text.filesz)) as u32).collect()
             });
         }
+        scramble_paddr_align(rng, &mut o);
         objs.push(o);
     }
     let m = if mips { "mips" } else { "x86" };
@@ -1595,7 +1677,7 @@ fn compare_readelf(o: &Obj, text: &str, err: &str, ok: bool) -> Vec<String> {
         p.push(format!("program header lines {} vs {}", phl.len(), o.phs.len()));
     } else {
         for (i, (l, ph)) in phl.iter().zip(&o.phs).enumerate() {
-            if l[0] != ph.off || l[1] != ph.vaddr || l[3] != ph.filesz || l[4] != ph.memsz {
+            if l[0] != ph.off || l[1] != ph.vaddr || l[2] != ph.paddr || l[3] != ph.filesz || l[4] != ph.memsz || (l.len() == 6 && l[5] != ph.align) {
                 p.push(format!("ph{}", i));
             }
         }
